@@ -53,6 +53,15 @@ def circle_exact_body(ctx, case):
     r, size, cx, cy, origin = case["r"], case["size"], case["cx"], case["cy"], case["origin"]
     want, nb = circle_oracle_exact(r, size, cx, cy, origin)
     got = pupil.circle(r, size, (cx, cy), origin)
+    if float(r).is_integer() and 0 <= r <= 120:
+        # the same radius as a NumPy integer scalar of a narrow type (a parameter read from a uint8 / int16 array)
+        import warnings as _w
+        for tname in ("uint8", "int8", "int16", "uint16"):
+            with _w.catch_warnings():
+                _w.simplefilter("ignore")
+                gi = pupil.circle(getattr(np, tname)(int(r)), size, (cx, cy), origin)
+            ctx.equal(gi, want, "circle(numpy.%s(%d), %d, (%r, %r), %r) vs exact indicator" % (tname, int(r), size, cx, cy, origin))
+        ctx.classes["integer_radius_in_narrow_types"] += 1
     ctx.case(case, nontrivial=(nb > 0 or cx != 0 or cy != 0 or origin == "corner"),
              classes=["boundary_pixel" if nb else "no_boundary_pixel", origin,
                       "centred" if (cx == 0 and cy == 0) else "offset"])
@@ -97,7 +106,7 @@ def circle_exact_cases(draw):
         r = c * s / 8.0
     elif mode == "centred":
         cx = cy = 0.0
-        r = draw(gen.dyadic(0, 20))
+        r = draw(st.one_of(gen.dyadic(0, 20), st.integers(0, 40).map(float)))
     else:
         cx = draw(gen.dyadic(-size, size))
         cy = draw(gen.dyadic(-size, size))
@@ -235,7 +244,7 @@ def select_cases(draw):
         mask = mask.astype(draw(st.sampled_from(["int64", "float32", "bool"]))) if kind != "frac" else mask
     tmode = draw(st.sampled_from(["attained", "attained", "free", "zero"]))
     return {"subaps": subaps, "mask": mask, "tmode": tmode, "tpick": draw(st.integers(0, 10**6)),
-            "tfree": draw(gen.dyadic(0, 1, 4096)), "t2": draw(gen.dyadic(0, 1, 4096))}
+            "tfree": draw(gen.dyadic(0, 1, 4096)), "t2": draw(gen.dyadic(0, 1, 4096)), "t_as": draw(st.sampled_from(["python", "numpy"]))}
 
 
 def cell_means_divisible(mask, subaps):
@@ -280,9 +289,11 @@ def select_body(ctx, case):
     size = mask.shape[0]
     divisible = size % subaps == 0
     if divisible:
-        means, k = cell_means_divisible(mask, subaps)
-        # means computed by numpy on the same block: use the block .mean() to be bit-compatible
-        means = np.array([[mask[x * k:(x + 1) * k, y * k:(y + 1) * k].mean() for y in range(subaps)] for x in range(subaps)])
+        # exact cell means as rationals: every mask value generated here (0/1, multiples of 1/16) is exactly representable in
+        # every storage type used, so "mean mask value >= threshold" has one answer whatever the dtype of the mask
+        k = size // subaps
+        exact = [[sum(Fraction(float(v)) for v in mask[x * k:(x + 1) * k, y * k:(y + 1) * k].ravel()) / (k * k) for y in range(subaps)] for x in range(subaps)]
+        means = np.array([[float(exact[x][y]) for y in range(subaps)] for x in range(subaps)])
         attained = sorted(set(means.ravel().tolist()))
     else:
         attained = None
@@ -292,11 +303,13 @@ def select_body(ctx, case):
         t = 0.0
     else:
         t = case["tfree"]
+    if case.get("t_as") == "numpy":
+        t = np.float64(t)              # e.g. an element of an array of thresholds
     maskc = mask.copy()
     coords, fills = wfslib.findActiveSubaps(subaps, maskc, t, returnFill=True)
     coords_only = wfslib.findActiveSubaps(subaps, maskc, t)
     ctx.case({"subaps": subaps, "mask": mask, "t": t}, nontrivial=bool((divisible and case["tmode"] == "attained") or not divisible),
-             classes=["divisible" if divisible else "non_divisible", "t_" + case["tmode"], "mask_" + str(mask.dtype)])
+             classes=["divisible" if divisible else "non_divisible", "t_" + case["tmode"], "mask_" + str(mask.dtype), "threshold_" + case.get("t_as", "python")])
     ctx.equal(maskc, mask, "findActiveSubaps modified the mask")
     ctx.equal(coords_only, coords, "findActiveSubaps with/without returnFill")
     ctx.require(len(fills) == len(coords), "fills/coords length mismatch")
@@ -305,13 +318,18 @@ def select_body(ctx, case):
         want_c, want_f = [], []
         for x in range(subaps):
             for y in range(subaps):
-                if means[x, y] >= t:
+                # the mean as the nearest double (sums of these values are exact, the division is correctly rounded) against
+                # the threshold: one answer, whatever type the mask is stored in
+                sel = float(exact[x][y]) >= float(t)
+                if abs(exact[x][y] - Fraction(float(t))) <= Fraction(1, 2**50):
+                    ctx.classes["mean_within_an_ulp_of_threshold"] += 1
+                if sel:
                     want_c.append([x * k, y * k])
                     want_f.append(means[x, y])
         want_c = np.array(want_c, dtype=np.float64).reshape(-1, 2) if want_c else np.array([])
         ctx.equal(np.asarray(coords, dtype=np.float64).reshape(want_c.shape) if len(coords) == len(want_c) else coords, want_c,
                   "findActiveSubaps: active cells (divisible mask %dx%d, %d subaps, t=%r)" % (size, size, subaps, t))
-        ctx.equal(fills, np.array(want_f), "findActiveSubaps: fill factors = block means")
+        ctx.close(np.asarray(fills, dtype=np.float64), np.array(want_f), 1e-12 if mask.dtype != np.float32 else 1e-6, "findActiveSubaps: fill factors = block means", scale=1.0, name="fill factors (%s mask)" % mask.dtype)
         if len(coords):
             ff = wfslib.computeFillFactor(maskc, coords, k)
             ctx.equal(np.asarray(ff), np.asarray(fills), "computeFillFactor vs fills from findActiveSubaps")
@@ -351,7 +369,8 @@ def select_body(ctx, case):
     shi = {tuple(map(float, c)) for c in np.asarray(chi).reshape(-1, 2)}
     ctx.require(shi <= slo, "active set does not shrink monotonically with the threshold (%r -> %r)" % (lo, hi))
     if len(fills):
-        ctx.require(float(np.min(fills)) >= t and float(np.max(fills)) <= 1.0 + 1e-12, "fill factors outside [t,1]")
+        slack = 1e-6 if mask.dtype == np.float32 else 1e-15          # fills of a float32 mask may be reported in single precision
+        ctx.require(float(np.min(fills)) >= t - slack and float(np.max(fills)) <= 1.0 + 1e-12, "fill factors outside [t,1]")
 
 
 # ------------------------------------------------------------------ make_subaps_2d round trip
